@@ -742,6 +742,89 @@ func (g *Gen) genC16() {
 			})
 		}})
 	}
+	// every byte value in every position of every table name (a compare that is too lenient for one byte value)
+	for _, nm := range hnames {
+		for i := 0; i < len(nm); i++ {
+			for c := 0; c < 256; c++ {
+				b := []byte(nm)
+				if r.P(50) {
+					b = []byte(r.ReCase(nm))
+				}
+				b[i] = byte(c)
+				addH(string(b), "hdr-byte-subst")
+			}
+		}
+	}
+	for _, nm := range mnames {
+		for i := 0; i < len(nm); i++ {
+			for c := 0; c < 256; c++ {
+				b := []byte(nm)
+				b[i] = byte(c)
+				addM(string(b), "method-byte-subst")
+			}
+		}
+	}
+	// the parser assigns the classification also on a header / header list object that was used before
+	// (parse, Reset, parse again; capacities small enough that the spare header is used too)
+	q := g.budget(1000, 30000)
+	for i := 0; i < q; i++ {
+		mk := func() (string, []string) {
+			var blk string
+			var names []string
+			for k := 0; k < 1+r.N(4); k++ {
+				var name string
+				switch r.N(3) {
+				case 0:
+					name = r.ReCase(hnames[r.N(len(hnames))])
+				case 1:
+					name = r.Alnum(1, 10)
+				default:
+					name = []string{"Via", "Max-Forwards", "User-Agent", "Route", "Record-Route", "X-Foo", "Subject", "v", "s"}[r.N(9)]
+				}
+				t := refHdrType(name)
+				if t == 1 || t == 2 || t == 3 || t == 4 || t == 7 || t == 8 || t == 13 || t == 14 {
+					// typed values are not the point here: generic kinds only
+					name = "X" + name
+				}
+				names = append(names, name)
+				blk += name + r.Pick("", " ", "\t", " \t") + ":" + r.Pick("", " ") + r.Pick("", "x", "70", "a b") + "\r\n"
+			}
+			return blk + "\r\n", names
+		}
+		blk1, _ := mk()
+		blk2, names2 := mk()
+		hcap := r.N(4)
+		how := r.Pick("R", "R", "I")
+		cut1 := len(blk1)
+		if r.P(30) {
+			cut1 = r.N(len(blk1) + 1)
+		}
+		line := fmt.Sprintf("headers %d 0 0 | B %s | P %d 0 0 | %s | B %s | P %d 0 0 | O", hcap, hx(blk1), cut1, how, hx(blk2), len(blk2))
+		g.add(Case{Prop: "C16", Desc: "reused-list-assigns-type", Lines: []string{line}, Check: func(out []string) string {
+			return protect(func() string {
+				var hl sipsp.HdrLst
+				hl.Hdrs = make([]sipsp.Hdr, hcap)
+				sipsp.ParseHeaders([]byte(blk1)[:cut1], 0, &hl, nil)
+				hl.Reset()
+				_, err := sipsp.ParseHeaders([]byte(blk2), 0, &hl, nil)
+				if err != 0 {
+					return fmt.Sprintf("reused header list: block %q not accepted (%v)", blk2, err)
+				}
+				var want sipsp.HdrFlags
+				for k, nm := range names2 {
+					t := refHdrType(nm)
+					want |= 1 << uint(t)
+					if k < hcap && int(hl.Hdrs[k].Type) != t {
+						return fmt.Sprintf("reused header list: header %q (#%d) got type %d, the table says %d", nm, k, hl.Hdrs[k].Type, t)
+					}
+				}
+				if hl.PFlags != want {
+					return fmt.Sprintf("reused header list: type flags %#x, the names %q give %#x", hl.PFlags, names2, want)
+				}
+				return ""
+			})
+		}})
+	}
 }
 
 func i4(r *Rng) int { return r.N(4) }
